@@ -2,7 +2,7 @@
 from trie.iter import NodeIterator
 
 from ..enumerate import Out, hex_states, per_state, replay_per_state
-from ..hexsys import restore
+from ..hexsys import apply_op, restore
 from ..ref import mpt
 from ..report import Report
 from .c08 import ann, describe
@@ -94,6 +94,70 @@ def make_fn():
                         o.viol("C10", "nodes_not_traverse", "a node yielded by nodes() differs from traverse(prefix)", call="nodes", prefix=tuple(p))
                         break
             o.stats["nodes:%d" % len(want_nodes)] += 1
+        # two ordered walks alive at the same time, advanced alternately (this trie and a neighbour one transition away,
+        # both in the same database), then the SAME iterator object re-queried after the trie was modified
+        t2 = restore(snap, logdict=False)
+        for op in sysm.ops[:: max(1, len(sysm.ops) // 5)]:
+            m2 = dict(model)
+            tb = restore(snap, logdict=False)
+            tb.db = t2.db  # same database object for both tries
+            try:
+                apply_op(tb, m2, op)
+            except Exception:  # noqa
+                continue
+            if tb.root_hash == snap[0]:
+                continue
+            o.evals += 1
+            ta = type(tb)(t2.db, snap[0])
+            try:
+                ia, ib = NodeIterator(ta).items(), NodeIterator(tb).items()
+                got_a, got_b = [], []
+                done_a = done_b = False
+                while not (done_a and done_b):
+                    if not done_a:
+                        try:
+                            got_a.append(next(ia))
+                        except StopIteration:
+                            done_a = True
+                    if not done_b:
+                        try:
+                            got_b.append(next(ib))
+                        except StopIteration:
+                            done_b = True
+                if got_a != want_items or got_b != sorted(m2.items()):
+                    o.viol("C10", "interleaved_walks_wrong", "two walks advanced alternately do not each yield their own trie's pairs in order",
+                           call="items", op=op, model=model)
+                    break
+                o.nontrivial += 1
+            except Exception as e:  # noqa
+                o.viol("C10", "iter_raised", f"interleaved walks raised {type(e).__name__}", call="items", op=op, exc=repr(e)[:160])
+                break
+        # one iterator object, queries, a modification of the trie, the same queries again
+        tm = restore(snap, logdict=False)
+        itm = NodeIterator(tm)
+        mm = dict(model)
+        try:
+            for q in qs[:: max(1, len(qs) // 12)]:
+                itm.next(q)
+            for op in sysm.ops[:: max(1, len(sysm.ops) // 4)]:
+                apply_op(tm, mm, op)
+                sk = sorted(mm)
+                for q in qs[:: max(1, len(qs) // 12)]:
+                    o.evals += 1
+                    bigger = [k for k in sk if k > q]
+                    want = bigger[0] if bigger else None
+                    got = itm.next(q)
+                    if got != want:
+                        o.viol("C10", "next_wrong_after_update", "next(k) on an iterator that was used before the trie changed is not the strict successor",
+                               call="next", query=q, got=got, want=want, op=op, model=mm)
+                        raise StopIteration
+                if list(itm.keys()) != sk:
+                    o.viol("C10", "iter_wrong_after_update", "keys() on an iterator that was used before the trie changed is wrong", call="keys", op=op)
+                    raise StopIteration
+        except StopIteration:
+            pass
+        except Exception as e:  # noqa
+            o.viol("C10", "iter_raised", f"iterator reuse after an update raised {type(e).__name__}", call="next", exc=repr(e)[:160])
         if not o.samples and len(model) >= 3:
             o.samples.append(dict(model=model, queries=len(qs) + 1))
         return o
